@@ -87,6 +87,11 @@ impl MutableItem {
     ) -> Result<Self, MutableError> {
         let key = VerifyingKey::try_from(key).map_err(|_| MutableError::InvalidMutablePublicKey)?;
 
+        // BEP_0044: the target must be the hash of the public key (and the salt).
+        if MutableItem::target_from_key(key.as_bytes(), salt.as_deref()) != target {
+            return Err(MutableError::InvalidMutablePublicKey);
+        }
+
         let signature =
             Signature::from_slice(signature).map_err(|_| MutableError::InvalidMutableSignature)?;
 
